@@ -195,6 +195,10 @@ func c08values(k c08kind, isInt bool, size int) (a, b []float64) {
 		a, b = []float64{one, 2, 7}, []float64{one, 7}
 	case c08EHist:
 		a, b = []float64{1, 2, 64}, []float64{1, 64}
+		if size == 1 {
+			// a zero and a negative value: cycles in which one sign has no buckets at all
+			a, b = []float64{1, 64, 0, -1}, []float64{1, 0}
+		}
 		if size == 2 {
 			a, b = []float64{1, 2, 64, 0, -1}, []float64{1, 2, 64, 0, -1}
 		}
